@@ -135,6 +135,11 @@ def minmax_call(fold, e, field):
 
 
 def run(ctx):
+    _run_main(ctx)
+    policy_fields_parsed_from_their_attributes(ctx)
+
+
+def _run_main(ctx):
     F = ctx.facts
     ctx.explanation = ("K4 on ResolvedAccountPolicy::fold_from: per strictness field the update inside the fold is min / max / intersection / && of the accumulator "
                        "and the incoming policy (direction checked against a table keyed by field name), and the "
@@ -418,3 +423,23 @@ def check_and(ctx, fold, fld, s, lits):
     ctx.check(good, "K4-fold", FOLD, f"{fld}:and", "Some(new && acc) | Some(new) when acc is None",
               f"`{fld}` is folded with {why}: {WHY['and']}", file=f["file"], line=s.get("line"))
     ctx.sample(f"{fld}: Some(new && acc) / Some(new) if acc is None")
+
+
+# ---------------------------------------------------------------------------------------------------------------------
+# fold_from combines the *parsed* group policies. Five of the eight fields are u32 / Option<u32>: a parser that reads
+# privilege_expiry from auth_session_expiry (or one limit from the other) compiles, and the strictest-of-all fold then works
+# on the wrong numbers (shared engine rules/lib/x_fields.py).
+
+def policy_fields_parsed_from_their_attributes(ctx):
+    from .lib.x_fields import check_field_sources
+    fns = ctx.facts.find_fns(LIB, r"^kanidmd_lib::idm::accountpolicy::<impl core::convert::From<&entry::Entry<.*AccountPolicy>>::from$")
+    if not ctx.check(len(fns) == 1, "K5-policy-fields", "kanidmd_lib::idm::accountpolicy", "parser-found", "AccountPolicy parser found",
+                     f"expected exactly one From<&Entry> for Option<AccountPolicy>, found {len(fns)} (anchor drift)"):
+        return
+    n = check_field_sources(ctx, LIB, "K5-policy-fields", [(fns[0], "kanidmd_lib::idm::accountpolicy::AccountPolicy", {
+        "privilege_expiry": {"PrivilegeExpiry"}, "authsession_expiry": {"AuthSessionExpiry"}, "pw_min_length": {"AuthPasswordMinimumLength"},
+        "credential_policy": {"CredentialTypeMinimum"}, "webauthn_att_ca_list": {"WebauthnAttestationCaList"},
+        "limit_search_max_filter_test": {"LimitSearchMaxFilterTest"}, "limit_search_max_results": {"LimitSearchMaxResults"},
+        "allow_primary_cred_fallback": {"AllowPrimaryCredFallback"}})],
+        "the resolved policy is then the strictest combination of the wrong settings")
+    ctx.floor("K5-policy-fields", "policy fields traced to their attributes", n, 8)
